@@ -270,8 +270,16 @@ def main(argv):
     t0 = time.time()
     res = {}
     code = 0
+    cov = None
     try:
         limit_memory()
+        if os.environ.get("VERIF_COV_DIR"):
+            # reach report (tools/coverage_report.sh): line / branch coverage of the library under the generated cases; never an oracle
+            import coverage
+
+            cov = coverage.Coverage(data_file=os.path.join(os.environ["VERIF_COV_DIR"], "cov"), data_suffix=True, branch=True,
+                                    include=[os.path.join(core.REPO_DIR, "dissect", "hypervisor", "*")])
+            cov.start()
         core.ensure_repo_import()
         mod = importlib.import_module(f"hv.props.{prop.lower()}")
         fn = {"search": run_search, "exhaustive": run_exhaustive, "replay": run_replay, "shrink": run_shrink}[mode]
@@ -279,6 +287,9 @@ def main(argv):
     except BaseException:  # noqa: BLE001
         res = {"harness_error": traceback.format_exc()}
         code = 2
+    if cov is not None:
+        cov.stop()
+        cov.save()
     res["wall_s"] = time.time() - t0
     res["seed"] = derive_seed(seed, shard)
     tmp = outfile + ".tmp"
